@@ -1364,6 +1364,7 @@ func checkC15(w *World, r *Report) {
 	checkProducerClose(w, r, "C15")
 	checkIteratorConsumers(w, r, "C15")
 	checkOneFrame(w, r, "C15")
+	checkNoRequestWhileIterating(w, r, "C15")
 	fi := w.analyseFlush()
 	ruleFlushOutcome(w, r, "C15", fi)
 	ruleTerminalCancel(w, r, "C15", fi)
